@@ -56,7 +56,7 @@ STAGE = st.fixed_dictionaries({
     "never": st.sampled_from([False] * 9 + [True]),
     "leave_call": st.one_of(st.none(), st.none(), st.none(), st.sampled_from([0, 1, 2, 5, 9])),
     "log_err": st.sampled_from(["no"] * 7 + ["one", "two_flush_one", "one_flush_it"]),
-    "drop_failed": st.sampled_from([False] * 7 + [True]),
+    "drop_failed": st.sampled_from([False] * 7 + [True, "cancelled"]),     # "cancelled": a Deferred cancelled and dropped (its failure is a CancelledError)
 })
 CASE_RANDOM = st.fixed_dictionaries({
     "setUp": STAGE, "test": STAGE, "tearDown": STAGE, "cleanups": st.lists(STAGE, max_size=3),
@@ -74,7 +74,7 @@ QUIET = st.fixed_dictionaries({
     "never": st.just(False), "leave_call": st.none(), "log_err": st.just("no"), "drop_failed": st.just(False)})
 NONEXC = {"kbi": KeyboardInterrupt, "sysexit": SystemExit, "genexit": GeneratorExit}
 SINGLE_FAULT = st.sampled_from([("expect", True), ("result", "kbi"), ("result", "sysexit"), ("result", "genexit"), ("result", "error"), ("result", "fail"), ("result", "skip"), ("result", "error_falsy"), ("result", "error"),
-                                ("log_err", "one"), ("log_err", "two_flush_one"), ("drop_failed", True), ("leave_call", 5), ("never", True)])
+                                ("log_err", "one"), ("log_err", "two_flush_one"), ("drop_failed", True), ("drop_failed", "cancelled"), ("leave_call", 5), ("never", True)])
 
 
 @st.composite
@@ -271,7 +271,9 @@ def run_case(spec):
             elif s["log_err"] == "one_flush_it":
                 tlog.err(ValueError("logged-MARK-flushed"))
                 flush_logged_errors(ValueError)
-            if s["drop_failed"]:
+            if s["drop_failed"] == "cancelled":
+                defer.Deferred().cancel()           # nobody handles the CancelledError it fails with
+            elif s["drop_failed"]:
                 defer.fail(RuntimeError("dropped-MARK"))
 
             def exc():
